@@ -192,3 +192,79 @@ contract(
     ensures={"same": "result.shape == (r, c) and forall(range(r), range(c), lambda i, q: result[i, q] == cuts[i, q])"},
     props=["C13"],
 )
+
+# ------------------------------------------------------------------------------------------------ LocalAnomalyScore: value (C06, C09)
+def _dk(pre):
+    return {pre: "obj:~BaseCost", f"{pre}.min_size": "int", f"{pre}.ghost_datakeyed": "bool=True", f"{pre}.ghost_kind": "int"}
+
+
+_IC, _SC = "self._interval_cost", "self._any_subset_cost"
+_POOLTOK = lambda i: (f"FITTOK({_IC}.ghost_kind, POOLID(DATAID(self._X), cuts[{i}, 0], cuts[{i}, 1], cuts[{i}, 2], cuts[{i}, 3]))")
+_LVAL = lambda i, j: (f"SC2({_IC}.ghost_tok, cuts[{i}, 0], cuts[{i}, 3], {j}) - (SC2({_IC}.ghost_tok, cuts[{i}, 1], cuts[{i}, 2], {j}) + "
+                      f"SC2({_POOLTOK(i)}, 0, (cuts[{i}, 1] - cuts[{i}, 0]) + (cuts[{i}, 3] - cuts[{i}, 2]), {j}))")
+contract(
+    target=f"{LAS}::LocalAnomalyScore._evaluate",
+    params={"self": "obj:LocalAnomalyScore", "self._X": "real[n,p]", **_dk(_IC), f"{_IC}._is_fitted": "bool=True", f"{_IC}.ghost_tok": "int",
+            f"{_IC}.ghost_n": "int", f"{_IC}.ghost_q": "int", **_dk(_SC), "cuts": "int[r,c]"},
+    requires=["c == 4", f"{_IC}.ghost_n == n", f"{_IC}.min_size >= 1", f"{_SC}.min_size == {_IC}.min_size", f"{_SC}.ghost_kind == {_IC}.ghost_kind",
+              f"{_IC}.ghost_q == QOF({_IC}.ghost_kind, p)",
+              # cuts already validated by _check_cuts / evaluate (C13)
+              "forall(range(r), lambda i: 0 <= cuts[i, 0] and cuts[i, 0] < cuts[i, 1] and cuts[i, 1] < cuts[i, 2] and cuts[i, 2] < cuts[i, 3] and cuts[i, 3] <= n and "
+              f"cuts[i, 2] - cuts[i, 1] >= {_IC}.min_size and (cuts[i, 1] - cuts[i, 0]) + (cuts[i, 3] - cuts[i, 2]) >= {_IC}.min_size)"],
+    modifies={f"{_SC}._X": "any", f"{_SC}._is_fitted": "bool", f"{_SC}.ghost_tok": "int", f"{_SC}.ghost_n": "int", f"{_SC}.ghost_p": "int", f"{_SC}.ghost_q": "int"},
+    returns=f"real[r,{_IC}.ghost_q]",
+    ensures={
+        # cost of the outer interval minus (cost of the inner interval + cost of the pooled surrounding rows fitted separately with the same configuration)
+        "value": f"forall(range(r), range({_IC}.ghost_q), lambda i, j: result[i, j] == {_LVAL('i', 'j')})",
+    },
+    invariants={"loop#1": {
+        "shape": f"surrounding_costs.shape == (r, {_IC}.ghost_q) and {_SC}.ghost_kind == {_IC}.ghost_kind and {_SC}.min_size == {_IC}.min_size",
+        "done": f"forall(range(_k), range({_IC}.ghost_q), lambda i, j: surrounding_costs[i, j] == "
+                f"SC2({_POOLTOK('i')}, 0, (cuts[i, 1] - cuts[i, 0]) + (cuts[i, 3] - cuts[i, 2]), j))",
+    }},
+    ghost=[
+        ("after:surrounding_data = np.concatenate(*",
+         "assert surrounding_data.shape == ((cuts[i, 1] - cuts[i, 0]) + (cuts[i, 3] - cuts[i, 2]), p) and "
+         "forall(range((cuts[i, 1] - cuts[i, 0]) + (cuts[i, 3] - cuts[i, 2])), range(p), lambda t, j: surrounding_data[t, j] == "
+         "ite(t < cuts[i, 1] - cuts[i, 0], self._X[cuts[i, 0] + t, j], self._X[cuts[i, 2] + t - (cuts[i, 1] - cuts[i, 0]), j]))\n"
+         "assume(POOL_NAMED(surrounding_data, self._X, cuts[i, 0], cuts[i, 1], cuts[i, 2], cuts[i, 3]))"),
+    ],
+    props=["C06", "C09"],
+)
+
+_CK = {"self.cost": "obj:~BaseCost", "self.cost.min_size": "int", "self.cost.ghost_datakeyed": "bool=True", "self.cost.ghost_kind": "int"}
+contract(
+    target=FIT, self_class="LocalAnomalyScore", variant="LocalAnomalyScore",
+    params={"self": "obj:LocalAnomalyScore", **_CK, "self._interval_cost": "alias:self.cost", "self._any_subset_cost": "any",
+            "self._is_fitted": "bool", "self._X": "any", "X": "real[n,p]", "y": "none"},
+    modifies={"self._X": "=X", "self._is_fitted": "=True", "self._any_subset_cost": "obj:~BaseCost",
+              "self.cost._X": "=X", "self.cost._is_fitted": "=True", "self.cost.ghost_tok": "int", "self.cost.ghost_n": "=n", "self.cost.ghost_p": "=p",
+              "self.cost.ghost_q": "int"},
+    returns="=self",
+    ensures={
+        "fitted": "self._is_fitted == True", "data": SAME_X,
+        # the interval cost IS the user's cost, fitted on X (known finding KF4: in place); the subset cost is a fresh clone of the same configuration
+        "interval_cost_fitted_on_X": "self._interval_cost.ghost_tok == FITTOK(self.cost.ghost_kind, DATAID(X)) and self._interval_cost.ghost_n == n and "
+                                     "self._interval_cost._is_fitted == True and self._interval_cost.ghost_q == QOF(self.cost.ghost_kind, p)",
+        "subset_cost_same_configuration": "self._any_subset_cost.ghost_kind == self.cost.ghost_kind and self._any_subset_cost.min_size == self.cost.min_size",
+    },
+    props=["C06", "C10"],
+)
+
+_LVALID_EV = ("(c == 4 and forall(range(r), lambda i: cuts[i, 1] - cuts[i, 0] >= 1 and cuts[i, 2] - cuts[i, 1] >= 1 and cuts[i, 3] - cuts[i, 2] >= 1 and "
+              "cuts[i, 2] - cuts[i, 1] >= self.cost.min_size and (cuts[i, 1] - cuts[i, 0]) + (cuts[i, 3] - cuts[i, 2]) >= self.cost.min_size and "
+              "0 <= cuts[i, 0] and cuts[i, 3] <= n))")
+_LVAL_EV = lambda i, j: _LVAL(i, j).replace(_IC, "self.cost")
+contract(
+    target=EVAL, self_class="LocalAnomalyScore", variant="LocalAnomalyScore",
+    params={"self": "obj:LocalAnomalyScore", "self._is_fitted": "bool=True", "self._X": "real[n,p]", **_CK, "self.cost._is_fitted": "bool=True",
+            "self.cost.ghost_tok": "int", "self.cost.ghost_n": "int", "self.cost.ghost_q": "int", "self._interval_cost": "alias:self.cost",
+            **_dk(_SC), "cuts": "int[r,c]"},
+    requires=["self.cost.ghost_n == n", "self.cost.min_size >= 1", f"{_SC}.min_size == self.cost.min_size", f"{_SC}.ghost_kind == self.cost.ghost_kind",
+              "self.cost.ghost_q == QOF(self.cost.ghost_kind, p)"],
+    raises={"ValueError": f"not {_LVALID_EV}"},
+    modifies={f"{_SC}._X": "any", f"{_SC}._is_fitted": "bool", f"{_SC}.ghost_tok": "int", f"{_SC}.ghost_n": "int", f"{_SC}.ghost_p": "int", f"{_SC}.ghost_q": "int"},
+    returns="real[r,self.cost.ghost_q]",
+    ensures={"value": f"forall(range(r), range(self.cost.ghost_q), lambda i, j: result[i, j] == {_LVAL_EV('i', 'j')})"},
+    props=["C06", "C09", "C13"],
+)
